@@ -850,7 +850,97 @@ pub fn run(rng: &mut Rng, thorough: bool, corpus: &[String]) -> Run {
     locale_precedence(&mut run);
     dns_timeout_in_force(&mut run);
     timing_and_modes(&mut run);
+    command_lines(&mut run);
     run
+}
+
+/// C16 begins at the command line: the documented spellings of the options (long names, the short letters of the
+/// manual page, `item=value` lists, humantime durations, the `-4` / `-6` / `--udp` / `--tcp` shorthands) parsed by the
+/// program's own `clap` definition give the `Args` the rest of this component constructs directly — and, through
+/// `build_config`, the effective values.  Written from `trip --help`, not from cmd.rs.
+fn command_lines(run: &mut Run) {
+    use clap::Parser as _;
+    let d = |x: &dyn std::fmt::Debug| format!("{x:?}");
+    type Get = fn(&Args) -> String;
+    let cases: Vec<(&[&str], Get, String)> = vec![
+        (&["-f", "3"], |a| format!("{:?}", a.first_ttl), d(&Some(3u8))),
+        (&["--first-ttl", "3"], |a| format!("{:?}", a.first_ttl), d(&Some(3u8))),
+        (&["-t", "20"], |a| format!("{:?}", a.max_ttl), d(&Some(20u8))),
+        (&["--max-ttl=20"], |a| format!("{:?}", a.max_ttl), d(&Some(20u8))),
+        (&["-U", "7"], |a| format!("{:?}", a.max_inflight), d(&Some(7u8))),
+        (&["-i", "250ms"], |a| format!("{:?}", a.min_round_duration), d(&Some(Duration::from_millis(250)))),
+        (&["--min-round-duration", "2s"], |a| format!("{:?}", a.min_round_duration), d(&Some(Duration::from_secs(2)))),
+        (&["-T", "1m 30s"], |a| format!("{:?}", a.max_round_duration), d(&Some(Duration::from_secs(90)))),
+        (&["-g", "50000us"], |a| format!("{:?}", a.grace_duration), d(&Some(Duration::from_millis(50)))),
+        (&["--read-timeout", "20ms"], |a| format!("{:?}", a.read_timeout), d(&Some(Duration::from_millis(20)))),
+        (&["--dns-timeout", "3s"], |a| format!("{:?}", a.dns_timeout), d(&Some(Duration::from_secs(3)))),
+        (&["--dns-ttl", "5m"], |a| format!("{:?}", a.dns_ttl), d(&Some(Duration::from_secs(300)))),
+        (&["--tui-refresh-rate", "200ms"], |a| format!("{:?}", a.tui_refresh_rate), d(&Some(Duration::from_millis(200)))),
+        (&["-P", "443"], |a| format!("{:?}", a.target_port), d(&Some(443u16))),
+        (&["-S", "5000"], |a| format!("{:?}", a.source_port), d(&Some(5000u16))),
+        (&["-A", "10.1.2.3"], |a| format!("{:?}", a.source_address), d(&Some(IpAddr::V4(Ipv4Addr::new(10, 1, 2, 3))))),
+        (&["-A", "fd00::1"], |a| format!("{:?}", a.source_address), d(&Some("fd00::1".parse::<IpAddr>().unwrap()))),
+        (&["-I", "eth7"], |a| format!("{:?}", a.interface), d(&Some("eth7".to_string()))),
+        (&["--packet-size", "100"], |a| format!("{:?}", a.packet_size), d(&Some(100u16))),
+        (&["--payload-pattern", "165"], |a| format!("{:?}", a.payload_pattern), d(&Some(165u8))),
+        (&["-Q", "46"], |a| format!("{:?}", a.tos), d(&Some(46u8))),
+        (&["--initial-sequence", "40000"], |a| format!("{:?}", a.initial_sequence), d(&Some(40000u16))),
+        (&["-C", "5"], |a| format!("{:?}", a.report_cycles), d(&Some(5usize))),
+        (&["-s", "99"], |a| format!("{:?}", a.max_samples), d(&Some(99usize))),
+        (&["--max-flows", "9"], |a| format!("{:?}", a.max_flows), d(&Some(9usize))),
+        (&["-M", "4"], |a| format!("{:?}", a.tui_max_addrs), d(&Some(4u8))),
+        (&["--tui-privacy-max-ttl", "0"], |a| format!("{:?}", a.tui_privacy_max_ttl), d(&Some(0u8))),
+        (&["--tui-locale", "fr"], |a| format!("{:?}", a.tui_locale), d(&Some("fr".to_string()))),
+        (&["-G", "/x/y.mmdb"], |a| format!("{:?}", a.geoip_mmdb_file), d(&Some("/x/y.mmdb".to_string()))),
+        (&["-c", "/x/trippy.toml"], |a| format!("{:?}", a.config_file), d(&Some("/x/trippy.toml".to_string()))),
+        (&["-u"], |a| format!("{:?}", a.unprivileged), d(&true)),
+        (&["-e"], |a| format!("{:?}", a.icmp_extensions), d(&true)),
+        (&["-y"], |a| format!("{:?}", a.dns_resolve_all), d(&true)),
+        (&["-z"], |a| format!("{:?}", a.dns_lookup_as_info), d(&true)),
+        (&["-4"], |a| format!("{:?}/{:?}", a.ipv4, a.ipv6), "true/false".to_string()),
+        (&["-6"], |a| format!("{:?}/{:?}", a.ipv4, a.ipv6), "false/true".to_string()),
+        (&["--udp"], |a| format!("{:?}/{:?}/{:?}", a.udp, a.tcp, a.icmp), "true/false/false".to_string()),
+        (&["--tcp"], |a| format!("{:?}/{:?}/{:?}", a.udp, a.tcp, a.icmp), "false/true/false".to_string()),
+        (&["--icmp"], |a| format!("{:?}/{:?}/{:?}", a.udp, a.tcp, a.icmp), "false/false/true".to_string()),
+        (&["-p", "udp"], |a| format!("{:?}", a.protocol), d(&Some(ProtocolConfig::Udp))),
+        (&["-p", "tcp"], |a| format!("{:?}", a.protocol), d(&Some(ProtocolConfig::Tcp))),
+        (&["-R", "dublin"], |a| format!("{:?}", a.multipath_strategy), d(&Some(MultipathStrategyConfig::Dublin))),
+        (&["-R", "paris"], |a| format!("{:?}", a.multipath_strategy), d(&Some(MultipathStrategyConfig::Paris))),
+        (&["-F", "ipv6"], |a| format!("{:?}", a.addr_family), d(&Some(AddressFamilyConfig::Ipv6))),
+        (&["-r", "google"], |a| format!("{:?}", a.dns_resolve_method), d(&Some(DnsResolveMethodConfig::Google))),
+        (&["-m", "json"], |a| format!("{:?}", a.mode), d(&Some(Mode::Json))),
+        (&["-a", "both"], |a| format!("{:?}", a.tui_address_mode), d(&Some(AddressMode::Both))),
+        (&["--tui-geoip-mode", "long"], |a| format!("{:?}", a.tui_geoip_mode), d(&Some(GeoIpMode::Long))),
+        (&["--tui-custom-columns", "holsr"], |a| format!("{:?}", a.tui_custom_columns), d(&Some("holsr".to_string()))),
+        (&["--tui-theme-colors", "bg-color=red,text-color=0a1b2c"], |a| format!("{:?}", a.tui_theme_colors.iter().map(|(i, c)| format!("{i:?}={c:?}")).collect::<Vec<_>>()), d(&vec!["BgColor=Red".to_string(), "TextColor=Rgb(10, 27, 44)".to_string()])),
+        (&["--tui-key-bindings", "toggle-help=x,quit=ctrl+c"], |a| format!("{:?}", a.tui_key_bindings.iter().map(|(i, b)| format!("{i:?}={b}")).collect::<Vec<_>>()), d(&vec!["ToggleHelp=x".to_string(), "Quit=ctrl+c".to_string()])),
+    ];
+    for (argv, get, want) in cases {
+        let mut full: Vec<&str> = vec!["trip"];
+        full.extend(argv.iter().copied());
+        full.push("example.com");
+        run.count("cli:parsed");
+        match guarded(|| Args::try_parse_from(&full)) {
+            Err(p) => run.fail("c16-build-config-panics", format!("parsing `{}`: {p}", full.join(" "))),
+            Ok(Err(e)) => run.fail("c16-cli-parse", format!("`{}` is refused: {}", full.join(" "), e.to_string().lines().next().unwrap_or(""))),
+            Ok(Ok(a)) => {
+                let got = get(&a);
+                if got != want || a.targets != ["example.com"] {
+                    run.fail("c16-cli-parse", format!("`{}`: the option reads {got}, expected {want}; targets {:?}", full.join(" "), a.targets));
+                }
+            }
+        }
+    }
+    // what must be refused at the command line
+    for argv in [&["--tui-key-bindings", "toggle-privacy=p"][..], &["-A", "10.0.0.1", "-I", "eth0"], &["--first-ttl", "256"], &["-i", "fast"], &["--tui-theme-colors", "bg-color"], &["-p", "sctp"]] {
+        let mut full: Vec<&str> = vec!["trip"];
+        full.extend(argv.iter().copied());
+        full.push("example.com");
+        if let Ok(Ok(_)) = guarded(|| Args::try_parse_from(&full)) {
+            run.fail("c16-cli-parse", format!("`{}` is accepted", full.join(" ")));
+        }
+        run.count("cli:refused-checked");
+    }
 }
 
 /// C16, the validators of `build_config` that do not concern the strategy: timing ranges (every duration just inside
